@@ -157,6 +157,10 @@ def _compare_da(a: xr.DataArray, b: xr.DataArray, tol: float, path: str, relax: 
                             np.nansum(np.abs(-xm[i] - ym[i])) < np.nansum(np.abs(xm[i] - ym[i])):
                         fixed[i] = -xm[i]
             r = _values_diff(fixed, ym, tol)
+    if r and relax and relax.get("sign") and "mode" not in b.dims and x.shape == y.shape:
+        # a single mode whose 'mode' dimension was squeezed away (Dataset output of a one-mode model)
+        if _values_diff(-x, y, tol) is None:
+            r = None
     if r:
         out.append(f"{path}: {r}")
     return out
